@@ -75,7 +75,7 @@ Section History.
     rewrite Hall in Hk |- *. rewrite nth_error_app1 in Hk by exact Hlt.
     rewrite firstn_app. replace (Datatypes.S k - length Em)%nat with O by lia. rewrite firstn_O, app_nil_r.
     destruct (nth_split_firstn Em k ek Hk) as [HsplitE Hfirst]. rewrite Hfirst.
-    destruct HPh as [[_ HE0]|(a & Fin & S & c & HP & Hc & HM)].
+    destruct HPh as [[_ HE0]|(a & Fin & S & c & HP & Hc & HM & _)].
     { rewrite HE0 in Hlt. cbn in Hlt. lia. }
     destruct (HM (firstn k Em) ek (skipn (Datatypes.S k) Em) HsplitE Hnu) as (ck0 & P & Q & F0 & Hck & HC & HF & Hl0 & HF0).
     exists a, Fin, S, c, ck0, P, Q, F0.
@@ -125,11 +125,11 @@ Section History.
   Proof.
     destruct hist_ok as [Hok Hlen]. split; [exact Hlen|]. split; [exact Hok|]. split.
     - intros n. destruct (hist_run h (fun b Hb => Hb)) as (s' & _ & HPh). fold tr in HPh.
-      destruct HPh as [[_ HE0]|(a & Fin & S & c & _ & Hc & _)].
+      destruct HPh as [[_ HE0]|(a & Fin & S & c & _ & Hc & _ & _)].
       + rewrite HE0. destruct n; cbn; eauto.
       + rewrite <- (firstn_skipn n (all_events tr)) in Hc. eapply cons_fold_prefix. exact Hc.
     - intros m. destruct (hist_upto m) as (sm & _ & -> & _ & HPh).
-      destruct HPh as [[HPre _]|(a & Fin & S & c & HP & _)].
+      destruct HPh as [[HPre _]|(a & Fin & S & c & HP & _ & _ & _)].
       + destruct HPre as [Hl He Hnd HU Hun Hls Hlls]. constructor.
         * split.
           -- constructor.
